@@ -82,6 +82,99 @@ func (k *Checker) refreshLog(n *Node, st *raft.VerifState, view bool) {
 	}
 	if view {
 		k.checkView(n, st, x)
+		if k.c.viol == nil {
+			k.checkQueries(n, st, x)
+		}
+	}
+}
+
+// checkQueries is C18 on the query interface of the combined view: term-at
+// just outside the range answers ErrCompacted / ErrUnavailable, and a range
+// query under a size limit returns exactly the longest non-empty prefix that
+// fits. One pseudo-randomly chosen query of each kind per step (the choice is
+// a function of the step number and the node, so it replays).
+func (k *Checker) checkQueries(n *Node, st *raft.VerifState, x *nodeChk) {
+	k.count("lg.query")
+	var msg string
+	func() {
+		defer func() {
+			if r := recover(); r != nil {
+				msg = fmt.Sprintf("query panicked: %v", r)
+			}
+		}()
+		// term-at outside the range
+		if _, err := n.rn.VerifLogTerm(st.LastIndex + 1); err != raft.ErrUnavailable {
+			msg = fmt.Sprintf("term(%d) just beyond the last index %d answered %v, want ErrUnavailable", st.LastIndex+1, st.LastIndex, err)
+			return
+		}
+		if st.FirstIndex >= 2 {
+			// Below the compaction point the answer is ErrCompacted. (The unstable
+			// tail may still hold entries the application has already compacted
+			// in Storage, after a storage acknowledgement was ignored because of a
+			// term change; answering with the true term of such an entry is not
+			// a wrong answer, so it is tolerated when it is the committed term.)
+			idx := st.FirstIndex - 2
+			t, err := n.rn.VerifLogTerm(idx)
+			if err != raft.ErrCompacted {
+				g := k.gAt(idx)
+				if !(err == nil && g != nil && g.term == t) {
+					msg = fmt.Sprintf("term(%d) below the compaction point %d answered (%d, %v), want ErrCompacted", idx, st.FirstIndex-1, t, err)
+					return
+				}
+			}
+		}
+		if len(x.log) == 0 {
+			return
+		}
+		// one size-limited range query
+		h := Mix(uint64(k.c.step), n.id)
+		lo := x.logFirst + h%uint64(len(x.log))
+		hi := lo + 1 + (h>>16)%(st.LastIndex+1-lo)
+		want := x.log[lo-x.logFirst : hi-x.logFirst]
+		var limit uint64
+		switch (h >> 32) % 5 {
+		case 0:
+			limit = 0
+		case 1:
+			limit = ^uint64(0)
+		default:
+			// around the size of a prefix of random length
+			kk := 1 + int((h>>40)%uint64(len(want)))
+			limit = raft.VerifEntsSize(want[:kk])
+			switch (h >> 48) % 3 {
+			case 0:
+				limit--
+			case 1:
+				limit++
+			}
+		}
+		got, err := n.rn.VerifLogSlice(lo, hi, limit)
+		if err != nil {
+			msg = fmt.Sprintf("slice[%d,%d) limit %d answered %v", lo, hi, limit, err)
+			return
+		}
+		exp := 1
+		size := raft.VerifEntsSize(want[:1])
+		for exp < len(want) {
+			size += raft.VerifEntsSize(want[exp : exp+1])
+			if size > limit {
+				break
+			}
+			exp++
+		}
+		if len(got) != exp {
+			msg = fmt.Sprintf("slice[%d,%d) limit %d returned %d entries, the longest non-empty prefix that fits has %d", lo, hi, limit, len(got), exp)
+			return
+		}
+		for i, e := range got {
+			if e != want[i] && (e.GetIndex() != want[i].GetIndex() || e.GetTerm() != want[i].GetTerm() || !bytes.Equal(e.GetData(), want[i].GetData())) {
+				msg = fmt.Sprintf("slice[%d,%d) limit %d: position %d holds (index=%d, term=%d), want (index=%d, term=%d)", lo, hi, limit, i, e.GetIndex(), e.GetTerm(), want[i].GetIndex(), want[i].GetTerm())
+				return
+			}
+		}
+	}()
+	if msg != "" {
+		k.report("C18", "lg.query", n, msg, "")
 	}
 }
 
